@@ -261,6 +261,14 @@ def body(chk, db, cfgname):
                         inside = any(d.get("declnode") == y for y, _ in f.walk(ln["body"])) or tgt[1] == w[1]
                         if inside:
                             continue
+                        # a reference bound outside the loop to the shared buffer: element [w] of it is this iteration's slot
+                        wn0 = f.nodes[wj]
+                        l0 = wn0["l"] if wn0["k"] == "bin" else (wn0["args"][0] if wn0["k"] == "call" and wn0.get("ck") == "op" and wn0.get("op") in ("+=", "-=", "=", "*=", "[]") and wn0["args"] else None)
+                        if d.get("ref") and l0 is not None:
+                            lk0 = ctx.key(l0, inline=False)
+                            if (lk0[0] == "op" and lk0[1] == "[]" and lk0[3][:2] == w[:2]) or (wn0.get("op") == "[]" and len(wn0["args"]) == 2 and ctx.key(wn0["args"][1], inline=False)[:2] == w[:2]):
+                                nwrites += 1 if wn0.get("op") != "[]" else 0
+                                continue
                         problems.append("shared local '%s' is written in the body (%s)" % (d.get("n"), f.s(wj)[:50]))
                         continue
                     # a write through a pointer / member: must be element [w] of the shared buffer
@@ -304,7 +312,7 @@ def body(chk, db, cfgname):
         raise AnalysisBroken("no OpenMP parallel-for region found in the library (anchor ComputeAndClearWrap::run vanished?)")
 
     # ================================================================== R6
-    r6 = chk.rule("C06-R6", "every (pointer, count) handed to an MPI collective points into a container whose extent is the count", "F8 extents", 7)
+    r6 = chk.rule("C06-R6", "every (pointer, count) handed to an MPI collective points into a container whose extent is the count", "F8 extents", 5)
     for f in fns:
         if not comm_roots(f, db):
             continue
